@@ -242,7 +242,7 @@ theorem call_once (g : Graph) (ok : GraphOK g) (env : String → Option Val) (w 
     intro j
     show calls m' j ≤ 1
     by_cases hj : j ≤ g.output
-    · exact post_le_one g ok (t := .value g.output) pl hK j hj
+    · exact post_le_one g (hb_vb_le_one g ok) (t := .value g.output) pl hK j hj
     · rw [pl.frame j (by simp only [Task.node]; omega), h0 j]; omega
   | raised e m' =>
     obtain ⟨s', s'', hreach, hstep, hmem⟩ := hsim.2 e m' hq [] [.ret] _ rfl
